@@ -85,7 +85,7 @@ func getEigenvalues(eigenvalues Vector, h Matrix) {
       i++
     }
   }
-  if h.At(n-1,n-2).GetFloat64() == 0.0 {
+  if n == 1 || h.At(n-1,n-2).GetFloat64() == 0.0 {
     eigenvalues.At(n-1).Set(h.ConstAt(n-1, n-1))
   }
 }
